@@ -157,6 +157,30 @@ func fieldOf(v ssa.Value) *types.Var {
 	return nil
 }
 
+// fieldAlias: struct fields renamed w.r.t. the reference tree answer to their old name (see resolveFieldRenames).
+var fieldAlias = map[*types.Var]string{}
+
+func fieldName(v *types.Var) string {
+	if v == nil {
+		return ""
+	}
+	if n, ok := fieldAlias[v]; ok {
+		return n
+	}
+	return v.Name()
+}
+
+// varAlias: parameters and captured variables renamed w.r.t. the reference tree answer to their old name
+// (matched by function, position and type; see resolveParamRenames).
+var varAlias = map[ssa.Value]string{}
+
+func paramName(v ssa.Value) string {
+	if n, ok := varAlias[v]; ok {
+		return n
+	}
+	return v.Name()
+}
+
 type fieldAccess struct {
 	Fn    *ssa.Function
 	Instr ssa.Instruction // the FieldAddr / Field instruction
